@@ -276,19 +276,21 @@ type brokenBox struct {
 	containingBlock Box
 	resumeAt        tree.ResumeStack
 	order           int // creation order, used to iterate deterministically
+	key             Box // the key in the brokenOutOfFlow map
 }
 
 // newBrokenBox returns a brokenBox stamped with its creation order.
 func (l *layoutContext) newBrokenBox(box, containingBlock Box, resumeAt tree.ResumeStack) brokenBox {
 	l.brokenOrder++
-	return brokenBox{box, containingBlock, resumeAt, l.brokenOrder}
+	return brokenBox{box: box, containingBlock: containingBlock, resumeAt: resumeAt, order: l.brokenOrder}
 }
 
 // sortedBrokenBoxes returns the values of [m] in creation order
 // (map iteration order is randomized).
 func sortedBrokenBoxes(m map[Box]brokenBox) []brokenBox {
 	out := make([]brokenBox, 0, len(m))
-	for _, v := range m {
+	for k, v := range m {
+		v.key = k
 		out = append(out, v)
 	}
 	sort.Slice(out, func(i, j int) bool { return out[i].order < out[j].order })
@@ -315,6 +317,8 @@ type layoutContext struct {
 	excludedShapesLists [][]*bo.BoxFields
 	brokenOutOfFlow     map[Box]brokenBox
 	brokenOrder         int
+	// for each page already made, the content of brokenOutOfFlow at its end
+	brokenOutOfFlowAfter [][]brokenBox
 
 	footnotes            []Box
 	currentPageFootnotes []Box
